@@ -15,6 +15,7 @@ max(j*Box/ppd, Box/2) in the float dtype (the subtraction cancels, so the bound 
 the result; exactly when Box/ppd is dyadic).
 """
 from __future__ import annotations
+from vcommon import pure
 
 import itertools
 import json
@@ -537,7 +538,7 @@ def check_rv_kernel(ctx, bp, M):
     """_unpack_rvint directly: compiled and py_func, None / arrays, py_func with a too-short array"""
     rng = ctx.rng
     SENT = -777.0
-    for fn_name, fn in (('compiled', bp._unpack_rvint), ('py_func', bp._unpack_rvint.py_func)):
+    for fn_name, fn in (('compiled', bp._unpack_rvint), ('py_func', pure(bp._unpack_rvint))):
         for dtype in (np.float32, np.float64):
             for prow, vrow in [(0, 0), (0, None), (None, 0), (None, None), (2, 0), (0, 1), (-1, 0), (0, -2), (-1, -1)]:
                 N = int(rng.integers(2, 6))
@@ -868,7 +869,7 @@ def check_pid_kernel(ctx, bp, M):
     combos = [(0, 0, 0, 0, 0), (None, None, None, None, None), (0, None, None, None, None), (None, 0, None, 0, None),
               (2, 1, 0, 3, 1), (None, None, 0, None, 0), (0, 0, None, None, 0)]
     short = [(-1, None, None, None, None), (0, -1, 0, 0, 0), (0, 0, 0, 0, -2), (None, None, -1, None, None), (None, None, None, -1, None)]
-    for fn_name, fn in (('compiled', bp._unpack_pids), ('py_func', bp._unpack_pids.py_func)):
+    for fn_name, fn in (('compiled', bp._unpack_pids), ('py_func', pure(bp._unpack_pids))):
         for dtype in (np.float32, np.float64):
             for combo in combos + (short if fn_name == 'py_func' else []):
                 N = int(rng.integers(2, 6))
